@@ -13,7 +13,7 @@ from detsim.wsgi_sim import SimInput, WsgiExchange, make_environ
 
 PROPERTY = 'C12'
 LEVEL = 'exploration'
-RUNS = {'quick': 3500, 'thorough': 150000}
+RUNS = {'quick': 3500, 'thorough': 100000}
 SWEEP = True
 SWEEP_CAP = {'quick': 20, 'thorough': 40}
 BATCH = 150
